@@ -100,11 +100,13 @@ DEEP_SHAPES = [
 ]
 
 
-def t_persisted(start, depth):
+def t_persisted(start, depth, only=None):
 	"""Strict classification over histories of persisted databases that share primary keys / keys / names but differ in shape and thresholds,
 	with threshold edits in between, all in one process (see C03.t_persisted): remembered per-taxon state shows as a wrong consensus."""
 	from mc import fixtures
 	import os
+	import gambit.classify, gambit.query, gambit.db
+	fixtures.reset_gambit_globals()
 	sh = Shard()
 	nw = len(taxo.WORLDS)
 	with fixtures.workdir('c10p') as d:
@@ -115,8 +117,9 @@ def t_persisted(start, depth):
 			paths.append(p)
 		events = [('open', j) for j in range(nw)] + [('edit', 0), ('edit', 1)]
 		dvecs = list(itertools.product(DISTS, repeat=3))
-		for hist in itertools.product(events, repeat=depth - 1):
-			hist = (('open', start),) + hist
+		for hist in ([None] if only else itertools.product(events, repeat=depth - 1)):
+			hist = tuple(tuple(h) for h in only) if only else (('open', start),) + hist
+			fixtures.reset_gambit_globals()       # every history starts from the state of a freshly imported library
 			cur = None
 			sessions = []
 			try:
@@ -255,8 +258,7 @@ def finalize(agg, tier):
 def replay(case, kind=None):
 	sh = Shard()
 	if 'history' in case:
-		vs = t_persisted(case['history'][0][1], len(case['history'])).violations
-		return [v for v in vs if v['case'].get('history') == case['history']][:1] or vs[:1]
+		return t_persisted(case['history'][0][1], len(case['history']), only=case['history']).violations[:1]
 	parent = tuple(case['parent'])
 	taxa = taxo.build_taxa(parent)
 	if 'order' in case:
